@@ -22,6 +22,7 @@ type c04Case struct {
 	Example Value    `json:"example"`
 	Self    string   `json:"self"`
 	InType  bool     `json:"intype"`
+	Plain   bool     `json:"plain"`
 }
 
 type c04Mismatch struct {
@@ -67,8 +68,8 @@ func init() {
 					atomic.AddInt64(&checkRejectsGood, 1)
 					return
 				}
-				if c.InType {
-					return // the root names a type; its own example text is the type's, validated where the type is the root
+				if c.InType || !c.Plain {
+					return // the root names types: its example is not plain JSON, the forward half of C04 does not apply
 				}
 				v := guard(func() error { return s.Validate(jdoc.New("example", ex)) })
 				if !v.OK {
